@@ -61,6 +61,8 @@ def faults_of(table, dm, tier):
         return [(n, x if n == 'syntax' else 'Var1 = ' + x) for n, x in VAL[dm] + (VAL_MORE[dm] if tier == 'thorough' else [])]
     if table == 'loc':
         return LOC[dm]
+    if table == 'loc-foreach':   # <foreach> declares an item/index variable that does not exist (SCXML 4.6): not a fault
+        return [f for f in LOC[dm] if f[0] != 'undeclared']
     if table == 'type':
         return TYPES
     if table == 'target':
@@ -90,8 +92,8 @@ SITES = [
     ('send-content-expr', 'val', '<send event="x"><content expr="%s"/></send>', '1', EXE),
     ('cancel-sendidexpr', 'val', '<cancel sendidexpr="%s"/>', "'nosuchid'", EXE),
     ('foreach-array', 'val', '<foreach array="%s" item="Var2"><raise event="body"/></foreach>', 'Arr', EXE),
-    ('foreach-item', 'loc', '<foreach array="Arr" item="%s"><raise event="body"/></foreach>', 'Var2', EXE),
-    ('foreach-index', 'loc', '<foreach array="Arr" item="Var2" index="%s"><raise event="body"/></foreach>', 'Var3', EXE),
+    ('foreach-item', 'loc-foreach', '<foreach array="Arr" item="%s"><raise event="body"/></foreach>', 'Var2', EXE),
+    ('foreach-index', 'loc-foreach', '<foreach array="Arr" item="Var2" index="%s"><raise event="body"/></foreach>', 'Var3', EXE),
     ('script', 'stmt', '<script>%s</script>', 'Var1 = 1', EXE),
     ('send-type', 'type', '<send event="x" type="%s"/>', 'scxml', EXE),
     ('send-undeliverable', 'target', '<send event="x" target="%s"/>', '#_internal', COM),
@@ -279,7 +281,7 @@ def make_doc(site, kind, dm, fname, text, control=False, bare=False):
         if kind in ('onexit', 'transition', 'history-transition'):
             must = ['e'] + must
         if control:
-            must = [m for m in must if m != 'ERR'] + (['after'] if kind != 'nested-else' or True else [])
+            must = [m for m in must if m != 'ERR'] + ['after']
             mustnot = []
     else:
         xml, items, must, mustnot = special_doc(site, dm, text, bare)
@@ -309,7 +311,8 @@ def corpus_docs():
     for w in json.load(open(p))['witnesses']:
         d = {'site': w['site'], 'kind': w.get('kind', BASE_KIND), 'dm': w['dm'], 'fault': w['fault'], 'text': w.get('text', ''),
              'control': False, 'xml': w['xml'], 'items': w['items'], 'must': w['must'], 'mustnot': w.get('mustnot', []),
-             'errs': w['errs'], 'final': w.get('final', 'any'), 'threaded': True, 'bare': True, 'corpus': w['name']}
+             'errs': w['errs'], 'final': w.get('final', 'any'), 'threaded': True, 'bare': True, 'corpus': w['name'],
+             'multi': w.get('multi', False), 'what': w.get('what', '')}
         out.append(d)
     return out
 
@@ -461,7 +464,7 @@ def judge(d, ans):
         good = [e for e in errs if e in d['errs']]
         if not good:
             out.append(('wrong-error-event', ' '.join(errs)) if errs else ('no-error-event', 'events processed: ' + ' '.join(evs)))
-        elif len(errs) > 1:
+        elif len(errs) > 1 and not d.get('multi'):
             out.append(('several-error-events', ' '.join(errs)))
         for m in d['mustnot']:
             if m in evs:
@@ -487,6 +490,15 @@ def judge(d, ans):
     return out
 
 
+def group(site):
+    """sites that share the code that handles their errors"""
+    if site.startswith('invoke-'):
+        return 'invoke'
+    if site in ('foreach-item', 'foreach-index'):
+        return 'foreach-item-index'
+    return site
+
+
 def classify(docs, verdicts):
     """attribute each failing run to a class: the fault kind (when most sites fail for it in the same way), the block
     kind (when the same site and fault pass in the base kind) or the site.  verdicts: {(engine, i): [(symptom, detail)]}.
@@ -497,12 +509,10 @@ def classify(docs, verdicts):
         d = docs[i]
         if d['control'] or d.get('corpus'):
             continue
-        if d['kind'] == BASE_KIND:
+        if d['kind'] == BASE_KIND or d['site'] not in SITE:
             k = (d['dm'], d['fault'], eng)
-            tot, bad = per_fault.get(k, (0, {}))
-            for s, _ in v[:1]:
-                bad[s] = bad.get(s, 0) + 1
-            per_fault[k] = (tot + 1, bad)
+            tot, bad = per_fault.get(k, (0, 0))
+            per_fault[k] = (tot + 1, bad + (1 if v else 0))
             if v:
                 base_fail[(d['site'], d['dm'], d['fault'], eng)] = v[0][0]
     classes = {}
@@ -511,17 +521,74 @@ def classify(docs, verdicts):
             continue
         d = docs[i]
         sym, det = v[0]
-        if d.get('corpus'):
-            cls = 'witness:' + d['corpus']
-        elif d['control']:
+        if d['control']:
             cls = 'control:%s@%s' % (d['site'], d['kind'])
         else:
-            tot, bad = per_fault.get((d['dm'], d['fault'], eng), (0, {}))
-            if tot >= 5 and bad.get(sym, 0) * 10 >= tot * 7:
-                cls = 'fault:%s:%s:%s' % (d['dm'], d['fault'], sym)
+            # (a witness of the corpus belongs to the class of the generated documents of its site/block/fault)
+            tot, bad = per_fault.get((d['dm'], d['fault'], eng), (0, 0))
+            if tot >= 8 and bad * 10 >= tot * 7:
+                cls = 'fault:%s:%s' % (d['dm'], d['fault'])
             elif d['site'] in SITE and d['kind'] != BASE_KIND and base_fail.get((d['site'], d['dm'], d['fault'], eng)) != sym:
                 cls = 'block:%s:%s' % (d['kind'], sym)
             else:
-                cls = 'site:%s:%s' % (d['site'], sym)
+                cls = 'site:%s:%s' % (group(d['site']), sym)
         classes.setdefault(cls, []).append((eng, i, sym, det))
     return classes
+
+
+# ------------------------------------------------------------------ the stream as one step of the check
+
+def shrink(vd, docs, members):
+    """the smallest failing document of a class: the shortest member; for exceptions and crashes also the same
+    construct without markers and without the surrounding `top` state, if that still fails in the same way"""
+    eng, i, sym, det = min(members, key=lambda m: (len(docs[m[1]]['xml']), ENGINES.index(m[0])))
+    d = docs[i]
+    if sym in ('exception', 'crash') and not d.get('corpus') and not d['control']:
+        b = make_doc(d['site'], d['kind'], d['dm'], d['fault'], d['text'], bare=True)
+        a = run_docs(vd, [b], engines=(eng,))[(eng, 0)]
+        v = judge(b, a)
+        if v and v[0][0] == sym:
+            return eng, b, sym, v[0][1]
+    return eng, d, sym, det
+
+
+def run_stream(vd, tier, log=None):
+    """runs witnesses + matrix; returns (stats, findings).  A finding: dict with class, count, members, the minimal
+    document, engine, symptom, detail, replay_cmd"""
+    t0 = time.time()
+    docs = corpus_docs() + gen_docs(tier)
+    res = run_docs(vd, docs)
+    verdicts = {k: judge(docs[k[1]], a) for k, a in res.items()}
+    # a verdict that depends on timing (threads of invoked sessions, timers) is confirmed by a second run
+    again = sorted(set(i for (e, i), v in verdicts.items() if v and docs[i]['threaded'] and v[0][0] in ('event-lost', 'hang', 'interpreter-stuck')))
+    if again:
+        sub = [docs[i] for i in again]
+        r2 = run_docs(vd, sub, ncpu=4)
+        for (e, j), a in r2.items():
+            v2 = judge(sub[j], a)
+            if not v2:
+                verdicts[(e, again[j])] = []
+                res[(e, again[j])] = a
+    classes = classify(docs, verdicts)
+    findings = []
+    for cls, members in sorted(classes.items()):
+        eng, d, sym, det = shrink(vd, docs, members)
+        findings.append({'class': cls, 'count': len(members), 'symptom': sym, 'detail': det, 'engine': eng,
+                         'site': d['site'], 'block': d['kind'], 'datamodel': d['dm'], 'fault': d['fault'], 'expression': d['text'],
+                         'document': d['xml'], 'items': d['items'], 'expected': 'events %s processed in this order (ERR = %s), none of %s, no exception, no crash' % (
+                             ' '.join(d['must']), ' or '.join(d['errs']), ' '.join(d['mustnot']) or '-'),
+                         'observed': det, 'what': d.get('what', ''),
+                         'members': sorted(set('%s/%s/%s/%s/%s:%s' % (e, docs[i]['site'], docs[i]['kind'], docs[i]['dm'], docs[i]['fault'], s)
+                                               for e, i, s, _ in members))[:40],
+                         'replay_cmd': replay_cmd(eng, d)})
+    nfault = [d for d in docs if not d['control']]
+    stats = {'documents': len(docs), 'witnesses': sum(1 for d in docs if d.get('corpus')), 'controls': sum(1 for d in docs if d['control']),
+             'runs': len(res), 'engines': list(ENGINES),
+             'sites': len(set(d['site'] for d in nfault)), 'block_kinds': len(set(d['kind'] for d in nfault if d['site'] in SITE)),
+             'fault_kinds': {dm: len(set(d['fault'] for d in nfault if d['dm'] == dm)) for dm in ('lua', 'promela')},
+             'site_x_block_x_fault_x_datamodel': len(set((d['site'], d['kind'], d['fault'], d['dm']) for d in nfault)),
+             'runs_with_error_event': sum(1 for k, a in res.items() if not a.startswith(('CRASH', 'HANG', 'EXC', 'ERR')) and
+                                          any(e.startswith('error.') for e in parse(a)[0])),
+             'failing_runs': sum(1 for v in verdicts.values() if v), 'classes': {f['class']: f['count'] for f in findings},
+             'seconds': round(time.time() - t0, 1)}
+    return stats, findings
